@@ -113,6 +113,8 @@ pub struct Sub {
     pub exhaustive: bool,
     pub hang_is_violation: bool,
     pub shrink_iters: u32,
+    /// per-subcheck watchdog limit in seconds (None: VERIF_HANG_SECS or 60)
+    pub hang_secs: Option<u64>,
 }
 
 impl Sub {
@@ -127,6 +129,7 @@ impl Sub {
             exhaustive: false,
             hang_is_violation: false,
             shrink_iters: 6000,
+            hang_secs: None,
         }
     }
     pub const fn enumerated(name: &'static str, oracle: OracleFn, e: EnumFn, exhaustive: bool) -> Sub {
@@ -140,10 +143,15 @@ impl Sub {
             exhaustive,
             hang_is_violation: false,
             shrink_iters: 0,
+            hang_secs: None,
         }
     }
     pub const fn hang_violation(mut self) -> Sub {
         self.hang_is_violation = true;
+        self
+    }
+    pub const fn hang_secs(mut self, n: u64) -> Sub {
+        self.hang_secs = Some(n);
         self
     }
     pub const fn shrink(mut self, n: u32) -> Sub {
@@ -639,6 +647,7 @@ pub fn run_property(prop: &Property, tier: Tier, seed: u64) -> RunOutcome {
     let mut any_exhaustive = false;
     let mut all_exhaustive = true;
     let mut slow_cases: Vec<Value> = vec![];
+    let mut skipped_after_hang = false;
 
     for sub in &prop.subs {
         if sub.exhaustive {
@@ -690,7 +699,12 @@ pub fn run_property(prop: &Property, tier: Tier, seed: u64) -> RunOutcome {
         let mut results: Vec<StreamResult> = vec![];
         let mut lost: HashSet<usize> = HashSet::new();
         let mut parked_seen = alloc::PARKED.load(Ordering::SeqCst);
-        let limit = hang_limit();
+        let mut hang_abort = false;
+        let limit = match (std::env::var("VERIF_HANG_SECS").ok().and_then(|v| v.parse::<u64>().ok()), sub.hang_secs) {
+            (Some(v), _) => Duration::from_secs(v),
+            (None, Some(v)) => Duration::from_secs(v),
+            _ => hang_limit(),
+        };
         while results.len() + lost.len() < STREAMS {
             match rx.recv_timeout(Duration::from_millis(200)) {
                 Ok(r) => results.push(r),
@@ -731,6 +745,9 @@ pub fn run_property(prop: &Property, tier: Tier, seed: u64) -> RunOutcome {
             }
             // hung worker?
             for si in 0..slots.len() {
+                if hang_abort {
+                    break;
+                }
                 let hung = {
                     let s = slots[si].lock().unwrap();
                     match s.started {
@@ -745,15 +762,15 @@ pub fn run_property(prop: &Property, tier: Tier, seed: u64) -> RunOutcome {
                         s.stream = usize::MAX;
                     }
                     if sub.hang_is_violation {
-                        let small = reduce_stuck(sub.oracle, &case, Duration::from_secs(5), 12);
+                        // one hang is enough: stop this subcheck (the other streams would hang too and the
+                        // abandoned spinners keep their cores), minimise once, skip what is left of the run
+                        stop.store(true, Ordering::SeqCst);
+                        let small = reduce_stuck(sub.oracle, &case, Duration::from_secs(3), 10);
                         let mut r = StreamResult { stream, ..Default::default() };
                         r.evals = 1;
                         r.failure = Some((small, format!("a single case did not finish within {} s (hang)", limit.as_secs())));
                         results.push(r);
-                        let i = next_slot.fetch_add(1, Ordering::SeqCst);
-                        if i < slots.len() {
-                            spawn_worker(i);
-                        }
+                        hang_abort = true;
                     } else {
                         let p = write_case_file(&out_dir, prop.id, sub.name, &case, "stalled case (inconclusive)", None);
                         inconclusive = Some(format!("subcheck {} stalled for more than {} s on the case saved at {}", sub.name, limit.as_secs(), p.display()));
@@ -762,7 +779,7 @@ pub fn run_property(prop: &Property, tier: Tier, seed: u64) -> RunOutcome {
                     }
                 }
             }
-            if inconclusive.is_some() {
+            if inconclusive.is_some() || hang_abort {
                 break;
             }
         }
@@ -859,10 +876,14 @@ pub fn run_property(prop: &Property, tier: Tier, seed: u64) -> RunOutcome {
         if inconclusive.is_some() {
             break;
         }
+        if hang_abort {
+            skipped_after_hang = true;
+            break;
+        }
     }
 
     // extra (non-generated) step
-    if inconclusive.is_none() {
+    if inconclusive.is_none() && !skipped_after_hang {
         if let Some(extra) = prop.extra {
             let e = extra(tier, seed);
             total_evals += e.evaluations;
@@ -915,6 +936,7 @@ pub fn run_property(prop: &Property, tier: Tier, seed: u64) -> RunOutcome {
             "workers": nworkers,
             "slow_cases": slow_cases,
             "inconclusive": inconclusive,
+            "remaining_subchecks_skipped_after_hang": skipped_after_hang,
         },
         "assumptions": prop.assumptions,
         "wall_s": t_start.elapsed().as_secs_f64(),
